@@ -672,7 +672,413 @@ def c16(ctx):
     ctx.assumptions += X_ASSUMPTIONS
 
 
+# ---------------------------------------------------------------- C13 / C17: injected metas
+VALTEXT = {'bool_t': 'true', 'bool_f': 'false', 'ident': 'zz', 'str_ident': '"zz"', 'str_empty': '""', 'int': '3', 'negint': '-3',
+           'str_int': '"3"', 'str_negint': '"-3"', 'path2': 'aa::bb', 'str_path2': '"aa::bb"', 'float': '1.5', 'star': '*',
+           'preds': 'T: Copy', 'str_preds': '"T: Copy"', 'call': 'ff(1)', 'char': "'c'"}
+TRAIT_ORDER = ["Debug", "Clone", "Copy", "PartialEq", "Eq", "PartialOrd", "Ord", "Hash", "Default", "Deref", "DerefMut", "Into"]
+
+
+def param_text(p):
+    if p['form'] == 'path':
+        return p['name']
+    v = VALTEXT[p['val']]
+    return '%s = %s' % (p['name'], v) if p['form'] == 'nv' else '%s(%s)' % (p['name'], v)
+
+
+def meta_text(m):
+    t = m['t']
+    if m['form'] == 'path':
+        return t
+    if m['form'] == 'nv':
+        return '%s = %s' % (t, VALTEXT[m['val']])
+    ps = [param_text(p) for p in m['params']]
+    if m['uns'] == 'first':
+        ps = ['unsafe'] + ps
+    elif m['uns'] == 'later':
+        ps = ps[:1] + ['unsafe'] + ps[1:]
+    return '%s(%s)' % (t, ', '.join(ps))
+
+
+def injected_item(rec):
+    ctx, m = rec['ctx'], rec['meta']
+    educed = [t for t in TRAIT_ORDER if rec['educed'].get(t)]
+    kind, base, pos = ctx['kind'], ctx['base'], ctx['pos']
+    inj = meta_text(m)
+
+    def type_meta(t):
+        if kind == 'union' and t in ('Debug', 'PartialEq', 'Hash'):
+            return '%s(unsafe)' % t
+        if t == 'Default' and base.endswith('_texpr'):
+            return 'Default(expression = %s)' % ('T { a: 0, b: 0 }' if kind == 'struct' else 'T::V1 { a: 0, b: 0 }')
+        return t
+
+    if pos == 'type':
+        metas = [inj if t == m['t'] else type_meta(t) for t in educed]
+        if m['t'] not in educed:
+            metas.append(inj)
+        fa = va = ''
+    else:
+        metas = [type_meta(t) for t in educed]
+        fa = '#[educe(%s)] ' % inj if pos == 'field' else ''
+        va = '#[educe(%s)] ' % inj if pos == 'variant' else ''
+    head = '#[educe(%s)] ' % ', '.join(metas)
+    if base == 'struct_named' or base == 'struct_named_texpr':
+        return '%sstruct T { %sa: u8, b: u8 }' % (head, fa)
+    if base == 'struct_tuple':
+        return '%sstruct T(%su8, u8);' % (head, fa)
+    if base == 'struct1_tuple':
+        return '%sstruct T(%su8);' % (head, fa)
+    if base in ('enum1_named', 'enum1_named_texpr'):
+        return '%senum T { %sV1 { %sa: u8, b: u8 } }' % (head, va, fa)
+    if base == 'enum1_tuple':
+        return '%senum T { %sV1(%su8, u8) }' % (head, va, fa)
+    if base == 'enum1_tuple1':
+        return '%senum T { %sV1(%su8) }' % (head, va, fa)
+    if base == 'enum2_nobuild':
+        return '%senum T { %sV1 { %sa: u8, b: u8 }, #[educe(Default)] V2 }' % (head, va, fa)
+    if base == 'union1':
+        return '%sunion T { %sa: u8 }' % (head, fa)
+    raise ToolError('unknown base %s' % base)
+
+
+def kconfirm(ctx, items):
+    """Channel K: compile items with the real proc macro; returns per item dict(panicked, educe_errors, other_errors)."""
+    import cases
+    lines = ['#![allow(dead_code, unused)]', 'use educe::Educe;']
+    line_of = {}
+    for i, text in enumerate(items):
+        lines.append('mod m%d { use educe::Educe; #[derive(Educe)] %s }' % (i, text))
+        line_of[len(lines)] = i
+    lines.append('fn main() {}')
+    d = cases.write_crate('kconf_' + ctx.prop, '\n'.join(lines) + '\n')
+    ok, diags, exe, wall, stderr = cases.cargo_build(d)
+    out = [{'panicked': False, 'errors': []} for _ in items]
+    for dmsg in diags:
+        msg = dmsg.get('message', {})
+        if msg.get('level') != 'error':
+            continue
+        for sp in msg.get('spans', []):
+            i = line_of.get(sp.get('line_start'))
+            if i is not None:
+                text = msg.get('message', '')
+                out[i]['errors'].append(text[:300])
+                if 'panicked' in text:
+                    out[i]['panicked'] = True
+                break
+    return out
+
+
+def injection_records(ctx, quick):
+    runs = [{'module': 'MC_C13', 'cfg': 'MC_C13_quick.cfg', 'workers': 8}]
+    if not quick:
+        runs.append({'module': 'MC_C13', 'cfg': 'MC_C13_thorough.cfg', 'workers': 12, 'timeout': 3000, 'heap': '16g'})
+    recs = model_check_tagged(ctx, runs, 'INJ')
+    seen = set()
+    out = []
+    for r in recs:
+        k = json.dumps(r, sort_keys=True)
+        if k not in seen:
+            seen.add(k)
+            out.append(r)
+    return out
+
+
+def c13(ctx):
+    quick = ctx.tier == 'quick'
+    recs = injection_records(ctx, quick)
+    exe = xchan.build(ctx)
+    requests = []
+    meta = {}
+    for i, r in enumerate(recs):
+        rid = 'i%d' % i
+        requests.append({'id': rid, 'text': injected_item(r)})
+        meta[rid] = {'mode': 'expect', 'expect': r['verdict']}
+    n_bad = sum(1 for r in recs if r['verdict'] == 'err')
+    ctx.info('%d injected inputs (%d must be refused, %d must be accepted)' % (len(recs), n_bad, len(recs) - n_bad))
+    neg = negative_corpora(ctx, quick)
+    for j, (text, why, cfg) in enumerate(neg):
+        rid = 'n%d' % j
+        requests.append({'id': rid, 'text': text})
+        meta[rid] = {'mode': 'expect', 'expect': 'err'}
+    trace, raw = xpipe.run_requests(ctx, exe, requests, meta)
+    res = xpipe.validate(ctx, trace)
+    lines = rpipe.load_lines(trace, res['bad'])
+    rawmap = {r['id']: r for r in raw}
+    textmap = {r['id']: r['text'] for r in requests}
+    for ln in res['bad']:
+        e = lines[ln]
+        rid = e['id']
+        if rid.startswith('i'):
+            rec = recs[int(rid[1:])]
+            key = {'kind': 'injected-meta', 'ctx': rec['ctx'], 'educed': sorted(t for t, b in rec['educed'].items() if b), 'meta': rec['meta']}
+            what = ('the scanner specification (EduceScan.Verdict) says this attribute must be %s here, the macro %s'
+                    % ('refused' if rec['verdict'] == 'err' else 'accepted', {'ok': 'accepted it silently', 'err': 'refused it'}.get(e['outcome'], e['outcome'])))
+        else:
+            text, why, cfg = neg[int(rid[1:])]
+            key = {'kind': 'structural', 'class': why, 'cfg': cfg}
+            what = 'a contradictory / ambiguous / misplaced construct (%s) was %s instead of being refused with a diagnostic' % (why, e['outcome'])
+        ctx.violation(key, {'what': what, 'input': textmap[rid], 'outcome': rawmap[rid]['outcome'], 'err': rawmap[rid].get('err'), 'out': rawmap[rid].get('out')})
+    ctx.coverage.update({
+        'traces_validated_against_impl': 1, 'trace_events': res['n'], 'trace_events_rejected': len(res['bad']),
+        'programs': len(requests), 'evaluations': len(requests), 'distinct_nontrivial': n_bad + len(neg),
+        'structural_negative_inputs': len(neg),
+        'rule': 'every (context, meta) pair of the scanner specification within the bounds of the MC_C13 cfg (contexts = kind x position x educed set x shown-with-key/'
+                'positionally x built/not built; metas = bare, Trait = v for every value kind, empty list, every parameter name x form x value kind, canonical parameter '
+                'pairs incl. duplicates and aliases, unsafe first/later, unknown trait), injected into a neutral base item; plus structural negatives emitted by the '
+                'per-trait models (rank clashes, missing/duplicate designations, unit variants, unprintable Debug shapes, duplicate traits, unions); '
+                'distinct_nontrivial = number of inputs that must be refused',
+        'samples': [{'input': requests[7]['text'], 'expected': meta[requests[7]['id']]['expect']},
+                    {'input': requests[-1]['text'], 'expected': 'err'}],
+    })
+    ctx.assumptions += X_ASSUMPTIONS
+
+
+def negative_corpora(ctx, quick):
+    """structural Bad classes (Appendix B): hand-listed families generated over positions; each entry (text, class, cfg)"""
+    out = []
+
+    def add(text, why):
+        out.append((text, why, {'text': text}))
+    P = ['a', 'b', 'c']
+    # a trait given twice on the type / one variant / one field (incl. synonym pairs)
+    for t in ['Debug', 'Clone', 'PartialEq', 'Hash', 'Default', 'Ord']:
+        add('#[educe(%s, %s)] struct T { a: u8 }' % (t, t), 'trait twice on the type')
+        add('#[educe(%s)] #[educe(%s)] struct T { a: u8 }' % (t, t), 'trait twice on the type (two attributes)')
+    for t, m in [('Debug', 'Debug(ignore)'), ('PartialEq', 'PartialEq(ignore)'), ('Hash', 'Hash(ignore)'), ('Clone', 'Clone(method(f))')]:
+        for i in range(3):
+            fs = ['u8', 'u8', 'u8']
+            fs[i] = '#[educe(%s, %s)] u8' % (m, m)
+            add('#[educe(%s)] struct T(%s);' % (t, ', '.join(fs)), 'trait twice on one field')
+            fs[i] = '#[educe(%s)] #[educe(%s)] u8' % (m, m)
+            add('#[educe(%s)] enum T { V1, V2(%s) }' % (t, ', '.join(fs)), 'trait twice on one field (two attributes)')
+    add('#[educe(PartialEq, Eq)] struct T { #[educe(PartialEq(ignore), Eq(ignore))] a: u8 }', 'synonym pair on one field')
+    add('#[educe(PartialEq, Eq, PartialOrd, Ord)] struct T { #[educe(Ord(ignore), PartialOrd(ignore))] a: u8 }', 'synonym pair on one field')
+    add('#[educe(Debug)] enum T { #[educe(Debug(name = A), Debug(name = B))] V1(u8) }', 'trait twice on one variant')
+    # rank given twice among compared fields (every pair of positions, struct / named variant / tuple variant, Ord and PartialOrd)
+    for tr in ['PartialOrd', 'Ord']:
+        educed = 'PartialEq, PartialOrd' if tr == 'PartialOrd' else 'PartialEq, Eq, PartialOrd, Ord'
+        for i in range(3):
+            for j in range(i + 1, 3):
+                for sp in ['rank = 1', 'rank(1)', 'rank = "1"']:
+                    fs = ['u8', 'u8', 'u8']
+                    fs[i] = '#[educe(%s(rank = 1))] u8' % tr
+                    fs[j] = '#[educe(%s(%s))] u8' % (tr, sp)
+                    add('#[educe(%s)] struct T(%s);' % (educed, ', '.join(fs)), 'rank twice')
+                    add('#[educe(%s)] enum T { V0, V1(%s) }' % (educed, ', '.join(fs)), 'rank twice')
+                    ns = ['%s: %s' % (P[k], f.replace(' u8', ' u8')) for k, f in enumerate(fs)]
+                    ns = [('%s %s: u8' % (f[:-3].strip(), P[k])).strip() if f != 'u8' else '%s: u8' % P[k] for k, f in enumerate(fs)]
+                    add('#[educe(%s)] enum T { V1 { %s }, V0 }' % (educed, ', '.join(ns)), 'rank twice')
+    # Into target twice
+    add('#[educe(Into(u8), Into(u8))] struct T { a: u8 }', 'Into target twice')
+    add('#[educe(Into(u8))] struct T { #[educe(Into(u8), Into(u8))] a: u8, b: u8 }', 'Into target twice on a field')
+    # default variant / union field missing or duplicated
+    for n in (2, 3):
+        vs = ['V%d' % k for k in range(n)]
+        add('#[educe(Default)] enum T { %s }' % ', '.join(vs), 'default variant missing')
+        for i in range(n):
+            for j in range(i + 1, n):
+                ws = list(vs)
+                ws[i] = '#[educe(Default)] ' + ws[i]
+                ws[j] = '#[educe(Default)] ' + ws[j]
+                add('#[educe(Default)] enum T { %s }' % ', '.join(ws), 'default variant duplicated')
+    add('#[educe(Default)] union T { a: u8, b: u16 }', 'default union field missing')
+    add('#[educe(Default)] union T { #[educe(Default)] a: u8, #[educe(Default)] b: u16 }', 'default union field duplicated')
+    add('#[educe(Default)] union T { #[educe(Default = 1)] a: u8, #[educe(Default)] b: u16 }', 'default union field duplicated')
+    # Deref / DerefMut / Into field missing or duplicated among several
+    for tr in ['Deref', 'DerefMut']:
+        educed = 'Deref' if tr == 'Deref' else 'Deref, DerefMut'
+        pre = '#[educe(Deref)] ' if tr == 'DerefMut' else ''
+        add('#[educe(%s)] struct T { %sa: u8, b: u8 }' % (educed, pre), '%s field missing' % tr)
+        add('#[educe(%s)] struct T(%su8, u8, u8);' % (educed, pre), '%s field missing' % tr)
+        add('#[educe(%s)] enum T { V1(%su8, u8), V2(u8) }' % (educed, pre), '%s field missing' % tr)
+        for i in range(3):
+            for j in range(i + 1, 3):
+                fs = ['u8', 'u8', 'u8']
+                fs[i] = '#[educe(%s)] u8' % tr
+                fs[j] = '#[educe(%s)] u8' % tr
+                if tr == 'DerefMut':
+                    fs[0] = '#[educe(Deref)] ' + fs[0]
+                add('#[educe(%s)] struct T(%s);' % (educed, ', '.join(fs)), '%s field duplicated' % tr)
+                add('#[educe(%s)] enum T { V1(u8), V2(%s) }' % (educed, ', '.join(fs)), '%s field duplicated' % tr)
+        add('#[educe(%s)] enum T { V1(u8), V2 }' % educed, 'unit variant under %s' % tr)
+        add('#[educe(%s)] union T { a: u8 }' % educed, 'union under %s' % tr)
+    add('#[educe(Into(u8))] struct T { a: u16, b: u16 }', 'Into field missing')
+    add('#[educe(Into(u8))] struct T { a: u8, b: u8 }', 'Into field ambiguous (two same-typed candidates)')
+    add('#[educe(Into(u8))] struct T(u8, u8, u8);', 'Into field ambiguous (three same-typed candidates)')
+    add('#[educe(Into(u8))] enum T { V1(u8), V2(u8, u8, u8) }', 'Into field ambiguous (three same-typed candidates)')
+    add('#[educe(Into(u8))] enum T { V1(u8), V2 { a: u8, b: u8, c: u8 } }', 'Into field ambiguous (three same-typed candidates)')
+    add('#[educe(Into(u8))] enum T { V1(u8), V2(u8, u16, u8, u16, u8) }', 'Into field ambiguous (three same-typed candidates)')
+    add('#[educe(Into(u8))] struct T { #[educe(Into(u8))] a: u16, #[educe(Into(u8))] b: u16 }', 'Into field duplicated')
+    add('#[educe(Into(u8))] struct T { #[educe(Into(u16))] a: u16, b: u8 }', 'Into marker for an unrequested target')
+    add('#[educe(Into(u8))] enum T { V1(u8), V2 }', 'unit variant under Into')
+    add('#[educe(Into(u8))] union T { a: u8 }', 'union under Into')
+    for tr in ['PartialOrd', 'Ord']:
+        add('#[educe(%s)] union T { a: u8 }' % tr, 'union under %s' % tr)
+    # attribute for a trait not educed / unknown trait, at every position
+    for where in ['#[educe(Hash(ignore))] ', '#[educe(Bogus)] ', '#[educe(Debug::x)] ']:
+        add('#[educe(Debug)] struct T { %sa: u8, b: u8 }' % where, 'trait not educed / unknown on a field')
+        add('#[educe(Debug)] struct T { a: u8, %sb: u8 }' % where, 'trait not educed / unknown on a field')
+        add('#[educe(Debug)] enum T { V0, %sV1(u8) }' % where, 'trait not educed / unknown on a variant')
+        add('#[educe(Debug)] enum T { V0, V1(u8, %su8) }' % where, 'trait not educed / unknown on a field')
+        add('#[educe(Debug(unsafe))] union T { a: u8, %sb: u8 }' % where, 'trait not educed / unknown on a union field')
+    add('#[educe(Bogus)] struct T;', 'unknown trait on the type')
+    add('#[educe] struct T;', 'educe attribute that is not a list')
+    add('#[educe = "Debug"] struct T;', 'educe attribute that is not a list')
+    add('#[educe()] struct T;', 'nothing educed')
+    # unions without unsafe / unsafe not first
+    for tr in ['Debug', 'PartialEq', 'Hash']:
+        add('#[educe(%s)] union T { a: u8 }' % tr, 'union without unsafe')
+        add('#[educe(%s())] union T { a: u8 }' % tr, 'union without unsafe')
+    add('#[educe(Debug(name = X))] union T { a: u8 }', 'union without unsafe')
+    add('#[educe(Debug(name = X, unsafe))] union T { a: u8 }', 'unsafe not first')
+    # Debug with nothing to print
+    add('#[educe(Debug(name = false))] struct T;', 'Debug of a unit struct without a name')
+    add('#[educe(Debug(name = false))] struct T { #[educe(Debug(ignore))] a: u8 }', 'Debug with every field ignored and no name')
+    add('#[educe(Debug)] enum T { #[educe(Debug(name = false))] V1 }', 'Debug of a unit variant without a name')
+    add('#[educe(Debug)] enum T { V0(u8), #[educe(Debug(name = false))] V1 }', 'Debug of a unit variant without a name')
+    add('#[educe(Debug)] enum T { #[educe(Debug(name = false))] V1(#[educe(Debug = false)] u8) }', 'Debug with every field ignored and no name')
+    add('#[educe(Debug)] enum T {}', 'Debug of an empty enum without a name')
+    # parameters the trait does not accept at that position
+    add('#[educe(Debug)] struct T(#[educe(Debug(name = x))] u8);', 'name on a positionally shown field')
+    add('#[educe(Debug(named_field = false))] struct T { #[educe(Debug(name = x))] a: u8 }', 'name on a positionally shown field')
+    add('#[educe(Debug)] enum T { #[educe(Debug(named_field = false))] V1 { #[educe(Debug(name = x))] a: u8 } }', 'name on a positionally shown field')
+    add('#[educe(Debug(unsafe))] union T { #[educe(Debug(method(f)))] a: u8 }', 'method on a union field')
+    add('#[educe(Clone)] enum T<X> { #[educe(Clone(bound(X: Clone)))] V1(X) }', 'bound on a variant')
+    add('#[educe(Clone, Copy)] enum T<X> { #[educe(Copy(bound(X: Copy)))] V1(X) }', 'bound on a variant')
+    add('#[educe(Clone, Copy)] struct T { #[educe(Copy(whatever = 3))] a: u8 }', 'unknown parameter')
+    return out
+
+
+# ---------------------------------------------------------------- C17
+def c17(ctx):
+    quick = ctx.tier == 'quick'
+    recs = injection_records(ctx, quick)
+    exe = xchan.build(ctx)
+    requests = []
+    meta = {}
+    for i, r in enumerate(recs):
+        rid = 'i%d' % i
+        requests.append({'id': rid, 'text': injected_item(r)})
+        meta[rid] = {'mode': 'total'}
+    base_texts = [r['text'] for r in requests]
+    neg = negative_corpora(ctx, quick)
+    for j, (text, why, cfg) in enumerate(neg):
+        rid = 'n%d' % j
+        requests.append({'id': rid, 'text': text})
+        meta[rid] = {'mode': 'total'}
+    muts = token_mutations(base_texts + [t for t, _, _ in neg], ctx.seed, 4000 if quick else 200000)
+    for j, text in enumerate(muts):
+        rid = 'm%d' % j
+        requests.append({'id': rid, 'text': text})
+        meta[rid] = {'mode': 'total'}
+    for j, text in enumerate(stress_inputs()):
+        rid = 's%d' % j
+        requests.append({'id': rid, 'text': text})
+        meta[rid] = {'mode': 'total'}
+    ctx.info('%d inputs (%d from the scanner model, %d structural, %d token mutations, %d stress)' %
+             (len(requests), len(recs), len(neg), len(muts), len(stress_inputs())))
+    recs_raw = xchan.expand(exe, requests)
+    # inputs that do not even parse as a derive input are never handed to the macro by the compiler: drop them
+    keep = [r for r in recs_raw if r['outcome'] not in ('lex', 'noinput')]
+    dropped = len(recs_raw) - len(keep)
+    trace = os.path.join(ctx.workdir, 'xtrace.ndjson')
+    with open(trace, 'w') as f:
+        for r in keep:
+            e = {'ev': 'expand', 'id': r['id'], 'rep': 0, 'outcome': r['outcome'], 'out': '', 'mode': 'total', 'g': '', 'expect': '', 'reset': False}
+            f.write(json.dumps(e, separators=(',', ':')) + '\n')
+    res = xpipe.validate(ctx, trace)
+    lines = rpipe.load_lines(trace, res['bad'])
+    textmap = {r['id']: r['text'] for r in requests}
+    rawmap = {r['id']: r for r in keep}
+    cands = [lines[ln]['id'] for ln in res['bad']]
+    if cands:
+        # S3: candidates are confirmed through the real compiler before they are reported
+        conf = kconfirm(ctx, [textmap[c] for c in cands])
+        for cid, k in zip(cands, conf):
+            if k['panicked'] or rawmap[cid]['outcome'] in ('timeout', 'abort'):
+                ctx.violation({'kind': 'not-total', 'input': textmap[cid]},
+                              {'what': 'the macro did not terminate with items or a diagnostic', 'input': textmap[cid],
+                               'in_process': {'outcome': rawmap[cid]['outcome'], 'err': rawmap[cid].get('err')}, 'real_compiler': k})
+            else:
+                ctx.note('in-process %s not reproduced by the real compiler (fallback token printer): %s' % (rawmap[cid]['outcome'], textmap[cid][:200]))
+    ctx.coverage.update({
+        'traces_validated_against_impl': 1, 'trace_events': res['n'], 'trace_events_rejected': len(res['bad']),
+        'programs': len(requests), 'evaluations': len(keep), 'distinct_nontrivial': len({r['text'] for r in requests}),
+        'inputs_not_parsing_as_derive_input': dropped,
+        'rule': 'all inputs of the scanner model (every value kind at every parameter of every trait at every position), the structural negatives, seeded token-level '
+                'mutations of those (delete / duplicate / swap / wrap in a group / replace a literal / splice) and depth/length stress inputs; inputs that do not parse as '
+                'a derive input are dropped (the compiler never calls the macro on them); outcome must be ok or err; panics/hangs are confirmed through the real compiler',
+        'samples': [{'input': muts[0] if muts else ''}, {'input': requests[3]['text']}],
+    })
+    ctx.assumptions += X_ASSUMPTIONS
+
+
+def token_mutations(texts, seed, n):
+    import random
+    import re
+    rnd = random.Random(seed)
+    tok = re.compile(r'"[^"]*"|\'[^\']\'|[A-Za-z_][A-Za-z_0-9]*|\d+(?:\.\d+)?|::|[^\sA-Za-z_0-9]')
+    lits = ['""', '"a b"', '"é"', '0', '-1', '99999999999999999999999', '1.5', "'x'", 'true', 'false', 'b"x"', '"\\u{0}"', 'r#type', 'Self', 'crate', '_']
+    out = []
+    seen = set()
+    tries = 0
+    while len(out) < n and tries < n * 5:
+        tries += 1
+        t = rnd.choice(texts)
+        # only mutate inside the first #[educe(...)] .. keep the item itself parseable most of the time
+        toks = tok.findall(t)
+        if len(toks) < 6:
+            continue
+        op = rnd.randrange(7)
+        i = rnd.randrange(2, len(toks))
+        if op == 0:
+            del toks[i]
+        elif op == 1:
+            toks.insert(i, toks[i])
+        elif op == 2 and i + 1 < len(toks):
+            toks[i], toks[i + 1] = toks[i + 1], toks[i]
+        elif op == 3:
+            j = min(len(toks), i + rnd.randrange(1, 4))
+            toks[i:j] = ['('] + toks[i:j] + [')']
+        elif op == 4:
+            toks[i] = rnd.choice(lits)
+        elif op == 5:
+            other = tok.findall(rnd.choice(texts))
+            k = rnd.randrange(len(other))
+            toks[i:i] = other[k:k + rnd.randrange(1, 4)]
+        else:
+            toks[i] = rnd.choice([',', '=', '(', ')', '::', '*', '-', 'unsafe', '#'])
+        s = ' '.join(toks)
+        if s not in seen:
+            seen.add(s)
+            out.append(s)
+    return out
+
+
+def stress_inputs():
+    out = []
+    for depth in (8, 64, 256):
+        out.append('#[educe(Debug(name%s))] struct T;' % ('(' * depth + 'x' + ')' * depth))
+        out.append('#[educe(Default(expression = %s))] struct T;' % ('(' * depth + '1' + ')' * depth))
+        out.append('#[educe(Clone(bound(%s)))] struct T<X>(X);' % ', '.join('X: Clone' for _ in range(depth)))
+        out.append('#[educe(%s)] struct T;' % ', '.join('Debug' for _ in range(depth)))
+        out.append('#[educe(Debug)] struct T { %s }' % ', '.join('#[educe(Debug(name = k%d))] f%d: u8' % (i, i) for i in range(depth)))
+        out.append('#[educe(Into(%s))] struct T(u8);' % ('Vec<' * depth + 'u8' + '>' * depth))
+    out.append('#[educe(PartialOrd, PartialEq)] enum T { A = 170141183460469231731687303715884105727, B }')
+    out.append('#[educe(PartialOrd, PartialEq)] enum T { A = -170141183460469231731687303715884105728, B }')
+    out.append('#[educe(PartialOrd, PartialEq)] enum T { A = 340282366920938463463374607431768211455, B }')
+    out.append('#[educe(PartialOrd, PartialEq)] #[repr()] enum T { A, B }')
+    out.append('#[educe(PartialOrd, PartialEq)] #[repr = "u8"] enum T { A, B }')
+    out.append('#[educe(Ord, PartialEq, Eq, PartialOrd)] struct T { #[educe(Ord(rank = 9223372036854775807))] a: u8, #[educe(Ord(rank = -9223372036854775808))] b: u8 }')
+    out.append('#[educe(Ord, PartialEq, Eq, PartialOrd)] struct T { #[educe(Ord(rank = 9223372036854775808))] a: u8 }')
+    out.append('#[educe(Ord, PartialEq, Eq, PartialOrd)] struct T { #[educe(Ord(rank = "x"))] a: u8 }')
+    return out
+
+
 REGISTRY = {
+    'C13': c13,
+    'C17': c17,
     'C16': c16,
     'C15': c15,
     'C14': c14,
